@@ -425,6 +425,32 @@ def rule_eqn(ctx, rep):
         again = _call(ctx, me, "_calculate_livein", "GroupIndex", g.blocks["C"], lo)
         rep.check(again == got, rule, f"live-in is a function of its arguments ({kind}, asked twice)", wl, again, got,
                   why="the answer changes when the same question is asked again: state leaks between calls")
+    # 6c. recursion through the caller: main calls a; a calls b and then c; b calls a again; c can approve.  Whatever the order in which a
+    # subroutine's callees are listed (it comes out of a set), and whatever was asked before on the same analysis object, both a and b can
+    # end the program (through c): neither call site is refined by its return point
+    for order in (("b", "c"), ("c", "b")):
+        g = Graph(ctx)
+        g.block("C", ["callsub a"]); g.block("R", ["int 1", "return"]); g.edge("C", "R")
+        g.block("A0", ["a:", "callsub b"]); g.block("A1", ["callsub c"]); g.block("A2", ["retsub"]); g.edge("A0", "A1"); g.edge("A1", "A2")
+        g.block("B0", ["b:", "callsub a"]); g.block("B1", ["retsub"]); g.edge("B0", "B1")
+        g.block("K0", ["c:", "txn Fee", "bnz c1"]); g.block("K1", ["retsub"]); g.block("K2", ["c1:", "int 1", "return"]); g.edge("K0", "K1"); g.edge("K0", "K2")
+        g.subroutine("a", "A0", ["A0", "A1", "A2"]); g.subroutine("b", "B0", ["B0", "B1"]); g.subroutine("c", "K0", ["K0", "K1", "K2"])
+        g.subroutine("main", "C", ["C", "R"])
+        g.call("C", "a"); g.call("A0", "b"); g.call("A1", "c"); g.call("B0", "a")
+        fn = g.function("main", ["a", "b", "c"])
+        g.subs["a"].fields["called_subroutines"] = [g.subs[x] for x in order]
+        me, lo = setup(g, fn, {n: set() for n in g.blocks}, {})
+        lo[g.blocks["R"]] = {1, 2, 3}; lo[g.blocks["A0"]] = {2, 3, 4}
+        lo[g.blocks["A1"]] = {1, 2, 3}; lo[g.blocks["B0"]] = {2, 3, 4}
+        first = _call(ctx, me, "_calculate_livein", key, g.blocks["C"], lo)
+        second = _call(ctx, me, "_calculate_livein", key, g.blocks["A0"], lo)
+        rep.check(first == {2, 3, 4} and second == {2, 3, 4}, rule, f"live-in of two call sites on a recursive call graph, callees of a listed as {order}", wl,
+                  {"callsub a": first, "callsub b": second}, {"callsub a": [2, 3, 4], "callsub b": [2, 3, 4]},
+                  why="whether a callee can end the program must not depend on the order in which callees are listed or on earlier questions")
+        me2, lo2 = setup(g, fn, {n: set() for n in g.blocks}, {})
+        alone = _call(ctx, me2, "_calculate_livein", key, g.blocks["A0"], lo)
+        rep.check(alone == second, rule, f"live-in(callsub b) asked first or after callsub a, callees listed as {order}", wl, second, alone,
+                  why="the answer depends on which question was asked before on the same analysis object")
     # 7. merge steps: out = in ∩ block constraint; leaf blocks are not touched by the backward pass
     wm = _gen_where(ctx, "_merge_information_forward")
     me, ro = setup(g2, fn2, {"P": {1, 2, 3, 4}, "Q": {2, 5}, "J": set()}, {("J", "P"): {3, 4, 9}, ("J", "Q"): {5, 6}})
